@@ -18,6 +18,8 @@ def nontrivial(engine, opline):
     if engine == 'block':
         # non-trivial: a transaction line that was admitted (not a begin/end line, not refused at admission)
         return bool(t) and t[0] in ('eth', 'cos')
+    if engine == 'vauth':
+        return bool(t) and t[0] == 'vsubmit'
     if engine == 'ante':
         return bool(t) and t[0] == 'ante'
     if engine == 'statedb':
@@ -111,6 +113,20 @@ PROPS['C07'] = dict(
                  'SDK tx.ValidateBasic, MsgEthereumTx.ValidateBasic, AsMessage, Protected are evaluated by the harness with the real functions and passed as booleans',
                  'messages that dispatch nested messages outside the tx path (gov proposals, ICA host packets) are outside the model, as in the property text',
                  're-check mode: CometBFT only re-checks bytes that passed check; C07_recheck states what is re-established there'],
+)
+
+PROPS['C16'] = dict(
+    lean_modules=['Model.Ante', 'Model.VAuth', 'Properties.C07', 'Properties.C16', 'Facts.Ante', 'Facts.VAuth'],
+    facts=['*'],
+    theorems=['C16_gate', 'C16_proof_sound', 'C16_cost', 'C16_final', 'C16_reject_noop', 'C16_stored_signed', 'sound_step', 'final_step',
+              'genesis_sound', 'vestingGate_sound', 'C07_cosmos_lane', 'checkMsgs_sound',
+              'fact_vauth_cost', 'fact_vauth_message', 'fact_disabled_list', 'fact_ante_chain', 'fact_nested_cap'],
+    engines=[dict(name='vauth', test='TestEngineVauth', quick=300, thorough=4000, thorough_seeds=3),
+             dict(name='ante', test='TestEngineAnte', quick=250, thorough=3000, thorough_seeds=2)],
+    rule='E-vauth: proof submissions delivered in real blocks (1-3 per block; 20 signature variants: valid, other key, other message, 64 bytes, upper-case hex, no prefix, empty, V=27, flipped bit, extra byte; rich and poor submitters around the fixed cost; repeats; self-submission); E-ante: vesting-creation messages of the three kinds at top level and nested, targets with and without proof, four modes; non-trivial = every line; distinct by op-line hash',
+    assumptions=['cryptography is symbolic: well-formedness, the address Ecrecover(keccak(message), sig) yields and lower-case-ness are computed by the harness with go-ethereum crypto (independently of x/vauth/utils) and fed to the model',
+                 'unforgeability of ECDSA and collision resistance of Keccak are not proved (C19)',
+                 'routes that execute messages outside the tx path (gov proposals, ICA host) are outside the model'],
 )
 
 NOT_APPLICABLE = {}
